@@ -372,6 +372,7 @@ func (x *Exec) enterLoop(fr *Frame, lr *loopRec, st *State) *State {
 		}
 		x.heap(st, t) // make sure it exists
 		nh := x.S.Const("hh", x.te.HeapSort(t))
+		x.bumpHeapVersion(st)
 		st.heaps[k] = nh
 		x.heapTypes[k] = t
 		// automatic frame invariant: every region that existed at function entry
@@ -399,6 +400,7 @@ func (x *Exec) enterLoop(fr *Frame, lr *loopRec, st *State) *State {
 			t := lr.modFresh[k]
 			hpre := x.heap(st, t)
 			nh := x.S.Const("hf", x.te.HeapSort(t))
+			x.bumpHeapVersion(st)
 			st.heaps[k] = nh
 			x.heapTypes[k] = t
 			q := x.S.Fresh("qr")
